@@ -496,7 +496,7 @@ class UnitsContainer(Mapping[str, Scalar]):
         if newval:
             new._d[key] = newval
         else:
-            new._d.pop(key)
+            new._d.pop(key, None)
         new._hash = None
         return new
 
@@ -640,8 +640,12 @@ class UnitsContainer(Mapping[str, Scalar]):
             raise TypeError(err.format(type(other)))
 
         new = self.copy()
-        for key, value in new._d.items():
-            new._d[key] *= other
+        if isinstance(other, Number) and other == 0:
+            # u ** 0 is dimensionless: no zero-exponent entry may survive.
+            new._d.clear()
+        else:
+            for key, value in new._d.items():
+                new._d[key] *= other
         new._hash = None
         return new
 
@@ -864,8 +868,11 @@ class ParserHelper(UnitsContainer):
 
     def __pow__(self, other):
         d = self._d.copy()
-        for key in self._d:
-            d[key] *= other
+        if isinstance(other, Number) and other == 0:
+            d.clear()
+        else:
+            for key in self._d:
+                d[key] *= other
         return self.__class__(self.scale**other, d, non_int_type=self._non_int_type)
 
     def __truediv__(self, other):
